@@ -116,7 +116,7 @@ const allPagesMaxCount = 40
 
 var (
 	words   = []string{"aa", "bb", "cc", "dd", "rr"}
-	kwPool  = []string{"a", "b", "ab", "B", "z", "zz", "10", "9", " sp", "é", "~", "\u0001", "\U0010FFFF", "m", "mm"}
+	kwPool  = []string{"", "a", "b", "ab", "B", "z", "zz", "10", "9", " sp", "é", "~", "\u0001", "\U0010FFFF", "m", "mm"}
 	numPool = []float64{-math.MaxFloat64, -1e9, -2.5, -1, -math.SmallestNonzeroFloat64, math.Copysign(0, -1), 0, math.SmallestNonzeroFloat64,
 		0.5, 1, 1.5, 2, 10, 9, 100, 1e9, 1e300, math.MaxFloat64}
 	datePool = []int64{-(1 << 62), -1e18, -(1 << 35) - 1, -(1 << 35), -1, 0, 1, 1 << 35, (1 << 35) + 1, 946684800e9, 1600000000e9, 1600000000e9 + 1, 1 << 62}
@@ -754,6 +754,55 @@ func ranked(full []hit, keys []Key) []*hit {
 	return out
 }
 
+// keyEmptyKw: known finding.  The missing-value sentinel of a text key is "\x00" when missing
+// values go to the low end (ascending + missing first, descending + missing last); the empty
+// string is a legal keyword value below it, so a document whose value is "" lands on the wrong
+// side of the documents that lack the field.  Identified by: such a key, and the match list holds
+// both a document whose (smallest) value of the key is "" and a document without the field.
+const keyEmptyKw = "empty-keyword-below-missing-sentinel"
+
+// judgeEmptyKw: the probe judges such requests all the same.
+var judgeEmptyKw = false
+
+func emptyVsMissing(keys []Key, full []hit) bool {
+	if judgeEmptyKw {
+		return false
+	}
+	if _, ok := vlib.IsKnown("C09", keyEmptyKw); !ok {
+		return false
+	}
+	for _, k := range keys {
+		if (k.F != "k1" && k.F != "k2" && k.F != "mv") || k.Desc == k.MF {
+			continue
+		}
+		empty, missing := false, false
+		for i := range full {
+			d := full[i].doc
+			var v *string
+			switch k.F {
+			case "k1":
+				v = d.K1
+			case "k2":
+				v = d.K2
+			default:
+				if len(d.MV) > 0 {
+					m := minString(d.MV)
+					v = &m
+				}
+			}
+			if v == nil {
+				missing = true
+			} else if *v == "" {
+				empty = true
+			}
+		}
+		if empty && missing {
+			return true
+		}
+	}
+	return false
+}
+
 func judged(keys []Key) bool {
 	for _, k := range keys {
 		if k.F == "odd" {
@@ -1024,6 +1073,7 @@ type reqStats struct {
 	tiesAcrossCut  bool
 	storeSwitch    bool
 	judged         bool
+	knownEmpty     bool // not judged: known finding keyEmptyKw applies
 }
 
 func (e *env) checkReq(r Req, st *reqStats) *vlib.Failure {
@@ -1047,6 +1097,9 @@ func (e *env) checkReq(r Req, st *reqStats) *vlib.Failure {
 	}
 	st.count, st.n, st.from = count, n, from
 	st.judged = judged(r.Keys)
+	if st.judged && emptyVsMissing(r.Keys, full) {
+		st.judged, st.knownEmpty = false, true
+	}
 	order, strs := buildOrder(r.Keys, r.Str) // a fresh order object per request
 	have, f := e.topN(buildQuery(e.qs[r.Q]), n, from, order, strs, nil, nil)
 	if f != nil {
@@ -1086,6 +1139,7 @@ type chainStats struct {
 	maxPages int // longest chain
 	chains   int
 	skipped  bool
+	knownEmpty bool
 }
 
 func withID(keys []Key) []Key {
@@ -1132,6 +1186,10 @@ func (e *env) runChains(c Chain, mk func() search.SortOrder, keyPrefix string, s
 		return f
 	}
 	keys := withID(c.Keys)
+	if emptyVsMissing(keys, full) {
+		st.skipped, st.knownEmpty = true, true
+		return nil
+	}
 	exp := ranked(full, keys)
 	count := len(exp)
 	st.count = count
@@ -1369,7 +1427,9 @@ func TestC09Index(t *testing.T) {
 			nt := st.judged && (st.tiesAcrossCut || st.storeSwitch)
 			anyNT = anyNT || nt
 			cls := []string{"req", fmt.Sprintf("req:keys=%d", len(r.Keys))}
-			if !st.judged {
+			if st.knownEmpty {
+				cls = append(cls, "req:unjudged-known-"+keyEmptyKw)
+			} else if !st.judged {
 				cls = append(cls, "req:unjudged-sentinel-collision")
 			}
 			if st.tiesAcrossCut {
@@ -1410,13 +1470,16 @@ func TestC09Index(t *testing.T) {
 			nt := st.maxPages >= 3
 			anyNT = anyNT || nt
 			cls := []string{"chain"}
+			if st.knownEmpty {
+				cls = append(cls, "chain:not-run-known-"+keyEmptyKw)
+			}
 			if ch.Shared {
 				cls = append(cls, "chain:shared-order")
 			}
 			if st.maxPages >= 3 {
 				cls = append(cls, "chain:pages>=3")
 			}
-			if st.count <= allPagesMaxCount {
+			if st.count <= allPagesMaxCount && !st.knownEmpty {
 				cls = append(cls, "chain:every-page-size")
 			}
 			ev.Case(idxCanon+vlib.Canon(ch), nt, cls...)
